@@ -2068,8 +2068,11 @@ def r_json_load(E):
                 # conjuncts of the test that are neither a kind test on the value (type(v) == …, isinstance(v, …)) nor
                 # the exclusion of a bookkeeping name (key != "id", key not in (…)) restrict the conversion
                 def _flat(e_):
-                    if isinstance(e_, ast.BoolOp) and isinstance(e_.op, ast.And):
+                    # the atoms of the test (through and / or / not: the arm the conversion sits in may be the negated one)
+                    if isinstance(e_, ast.BoolOp):
                         return [y for v_ in e_.values for y in _flat(v_)]
+                    if isinstance(e_, ast.UnaryOp) and isinstance(e_.op, ast.Not) and isinstance(e_.operand, (ast.BoolOp, ast.UnaryOp)):
+                        return _flat(e_.operand)
                     return [e_]
                 conj = _flat(par.test)
                 for cj in conj:
